@@ -40,6 +40,7 @@ type ordered struct {
 	ceiling func(k int) (kv, bool)
 	extra   func() error // kind-specific consistency between alternative accessors
 	hasVals bool
+	load    func([]byte) error // FromJSON
 }
 
 func build(c kvh.Case) *ordered {
@@ -53,7 +54,7 @@ func build(c kvh.Case) *ordered {
 			}
 			return kv{n.Key, n.Value}, true
 		}
-		return &ordered{put: t.Put, rem: t.Remove, clear: t.Clear, size: t.Size, keys: t.Keys, vals: t.Values, hasVals: true,
+		return &ordered{load: t.FromJSON, put: t.Put, rem: t.Remove, clear: t.Clear, size: t.Size, keys: t.Keys, vals: t.Values, hasVals: true,
 			fwd: func() []kv {
 				var out []kv
 				for it := t.Iterator(); it.Next(); {
@@ -98,7 +99,7 @@ func build(c kvh.Case) *ordered {
 			}
 			return kv{n.Key, n.Value}, true
 		}
-		return &ordered{put: t.Put, rem: t.Remove, clear: t.Clear, size: t.Size, keys: t.Keys, vals: t.Values, hasVals: true,
+		return &ordered{load: t.FromJSON, put: t.Put, rem: t.Remove, clear: t.Clear, size: t.Size, keys: t.Keys, vals: t.Values, hasVals: true,
 			fwd: func() []kv {
 				var out []kv
 				for it := t.Iterator(); it.Next(); {
@@ -153,7 +154,7 @@ func build(c kvh.Case) *ordered {
 		}
 	case kvh.BTree:
 		t := btree.NewWith[int, int](c.Order, kc)
-		return &ordered{put: t.Put, rem: t.Remove, clear: t.Clear, size: t.Size, keys: t.Keys, vals: t.Values, hasVals: true,
+		return &ordered{load: t.FromJSON, put: t.Put, rem: t.Remove, clear: t.Clear, size: t.Size, keys: t.Keys, vals: t.Values, hasVals: true,
 			fwd: func() []kv {
 				var out []kv
 				for it := t.Iterator(); it.Next(); {
@@ -201,7 +202,7 @@ func build(c kvh.Case) *ordered {
 		}
 	case kvh.TreeMap:
 		t := treemap.NewWith[int, int](kc)
-		return &ordered{put: t.Put, rem: t.Remove, clear: t.Clear, size: t.Size, keys: t.Keys, vals: t.Values, hasVals: true,
+		return &ordered{load: t.FromJSON, put: t.Put, rem: t.Remove, clear: t.Clear, size: t.Size, keys: t.Keys, vals: t.Values, hasVals: true,
 			fwd: func() []kv {
 				var out []kv
 				for it := t.Iterator(); it.Next(); {
@@ -224,7 +225,7 @@ func build(c kvh.Case) *ordered {
 		}
 	case TreeSet:
 		s := treeset.NewWith[int](kc)
-		return &ordered{put: func(k, _ int) { s.Add(k) }, rem: func(k int) { s.Remove(k) }, clear: s.Clear, size: s.Size, keys: s.Values,
+		return &ordered{load: s.FromJSON, put: func(k, _ int) { s.Add(k) }, rem: func(k int) { s.Remove(k) }, clear: s.Clear, size: s.Size, keys: s.Values,
 			fwd: func() []kv {
 				var out []kv
 				for it := s.Iterator(); it.Next(); {
@@ -243,7 +244,7 @@ func build(c kvh.Case) *ordered {
 		}
 	case kvh.TreeBidi:
 		t := treebidimap.NewWith[int, int](kc, dom.Cmp(c.VCmp))
-		return &ordered{put: t.Put, rem: t.Remove, clear: t.Clear, size: t.Size, keys: t.Keys, vals: t.Values, hasVals: true,
+		return &ordered{load: t.FromJSON, put: t.Put, rem: t.Remove, clear: t.Clear, size: t.Size, keys: t.Keys, vals: t.Values, hasVals: true,
 			fwd: func() []kv {
 				var out []kv
 				for it := t.Iterator(); it.Next(); {
@@ -317,6 +318,28 @@ func check(c kvh.Case) (pbt.Info, error) {
 			o.clear()
 			m.Clear()
 			bm.Clear()
+		case "load":
+			// a FromJSON load is part of "any history": the document replaces the
+			// content, after Min/Max/Floor/... have been answered for the old content
+			pairs := kvh.LoadPairs(c.Cmp, op.L)
+			doc := kvh.LoadDoc(pairs, c.Kind == TreeSet)
+			if err := o.load(doc); err != nil {
+				return fail(i, op, "FromJSON(%s) failed: %v", doc, err)
+			}
+			m.Clear()
+			bm.Clear()
+			for _, p := range pairs {
+				v := p[1]
+				if c.Kind == TreeSet {
+					v = 0
+				}
+				if bidi {
+					bm.Put(p[0], v)
+				} else {
+					m.Put(p[0], v)
+				}
+			}
+			label("load")
 		case "get", "probe":
 		default:
 			return info, fmt.Errorf("bad op %q", op.O)
@@ -458,7 +481,7 @@ var kinds = []string{kvh.RBT, kvh.AVL, kvh.BTree, kvh.TreeMap, TreeSet, kvh.Tree
 type rapidT = rapid.T
 
 func params(kind string) kvh.GenParams {
-	p := kvh.GenParams{Kind: kind, MaxOps: 40, RunMax: 16, Stride: 3, Probes: true, Cmps: dom.AllCmps}
+	p := kvh.GenParams{Kind: kind, MaxOps: 40, RunMax: 16, Stride: 3, Probes: true, Loads: true, Cmps: dom.AllCmps}
 	if kind == kvh.TreeBidi {
 		p.Cmps = dom.TotalCmps
 		p.SmallVals = true
